@@ -2,7 +2,7 @@
 // Family h2lib (C36): a priority tree made of real *stream objects, driven through the real
 // adjustStreamPriority / serverConn.processPriority.  No logic is copied: Open does what
 // processHeaders does around the call (insert into the map, adjust if the PRIORITY flag is set),
-// Close does what closeStream does to the map (delete).
+// Close does what closeStream does to the stream and the map (state = stateClosed, delete).
 package bfe_http2
 
 // VerifH2libTree is a serverConn reduced to its streams map plus every stream object ever made.
@@ -17,9 +17,12 @@ func VerifH2libNewTree() *VerifH2libTree {
 
 // Put creates the stream object id; open ones are entered into the streams map.
 func (t *VerifH2libTree) Put(id uint32, open bool) {
-	st := &stream{id: id, sc: t.sc}
+	// a closed stream is left by closeStream with state == stateClosed, out of the map,
+	// parent pointers (its own and those pointing at it) kept
+	st := &stream{id: id, sc: t.sc, state: stateClosed}
 	t.all[id] = st
 	if open {
+		st.state = stateOpen
 		t.sc.streams[id] = st
 	}
 }
@@ -51,8 +54,17 @@ func (t *VerifH2libTree) Priority(id uint32, p PriorityParam) error {
 	})
 }
 
-// Close removes id from the streams map (the object and pointers to it stay).
-func (t *VerifH2libTree) Close(id uint32) { delete(t.sc.streams, id) }
+// Close does to the object and the map what closeStream does: state = stateClosed, delete from
+// the streams map; the object and the pointers to it stay.
+func (t *VerifH2libTree) Close(id uint32) {
+	if st, ok := t.sc.streams[id]; ok {
+		st.state = stateClosed
+		delete(t.sc.streams, id)
+	}
+}
+
+// StateClosed reports whether the object id carries state == stateClosed.
+func (t *VerifH2libTree) StateClosed(id uint32) bool { return t.all[id].state == stateClosed }
 
 // Parents returns id -> parent id (0 = nil) for every object.
 func (t *VerifH2libTree) Parents() map[uint32]uint32 {
